@@ -300,7 +300,7 @@ class NumericRange(RangeMixin, qcore.Query):
             subqueries.append(subq)
 
         if len(subqueries) == 1:
-            q = subqueries[0]
+            q = subqueries[0].with_boost(self.boost)
         elif subqueries:
             q = compound.Or(subqueries, boost=self.boost)
         else:
